@@ -1,6 +1,6 @@
 import RotondaModel.Model.Codec
 /-! Line driver for the UPDATE codec model (C04).
-Case line:  `<stream> <asoctets> <hex PDU>`   stream = wf | mal | bmp | mrt (same PDU, other ingress path), asoctets = 2 | 4.
+Case line:  `<stream> <asoctets> <hex PDU>`   stream = wf | mal (direct), bgp (BGP session call site), bmpd / bmpu (BMP Route Monitoring, Dumping / Updating phase), mrt, asoctets = 2 | 4.
 Output:     `err`  or  `ok <events> | <attribute table>`; for `mal` only `ok` / `err` is compared. -/
 open Rotonda.Codec
 
@@ -51,7 +51,7 @@ def runCase (v : Variant) (line : String) : String :=
     | none => "bad-case"
     | some bs =>
       let as4 := asn == "4"
-      match run v as4 bs with
+      match (if stream == "bmpd" then runBmpDumping v as4 bs else run v as4 bs) with
       | none => "err"
       | some es => if stream == "mal" then "ok ## " ++ showEvents es else showEvents es
   | _ => "bad-case"
@@ -63,5 +63,5 @@ partial def loop (v : Variant) (h : IO.FS.Stream) (out : IO.FS.Stream) : IO Unit
   loop v h out
 
 def main (args : List String) : IO Unit := do
-  let v : Variant := if args.contains "padbits=repaired" then repaired else asWritten
+  let v : Variant := ⟨args.contains "padbits=repaired", !args.contains "bmpeor=repaired"⟩
   loop v (← IO.getStdin) (← IO.getStdout)
